@@ -23,50 +23,83 @@ from ..core import CORPUS, Ctx
 
 ID = "C01"
 LEVEL = "proof"
+STRENGTH = "full"   # every clause has a theorem; scope guards are the property's own ("while the watch is alive"); see LEVEL_TEXT
 ENGINES = ["lean-model", "kopfsim"]
-LEVEL_TEXT = ("Lean theorems for every label list (no bound) of an LTS of watcher/worker/Scheduler: stream entry <=> exactly "
-              "one live worker, arrived = processed ++ inflight ++ backlog while the watch is alive (order, no loss, no "
-              "duplicate; sub-sequence in EVERY state incl. shutdown), at most one busy worker per key, quiescent => everything "
-              "processed, every internal segment decreases a measure (no livelock; quiescence is reached within `measure` "
-              "segments, so 'is still processed' is a statement about executions), running <= limit, spawn enabled iff "
-              "pending and running<limit, pending queue FIFO, frame; broken-variant witness. The event->key map (get_uid incl. "
-              "its uid-less fallback) is NOT modelled (Key is opaque): covered by the oracle and a grid check only. Tie: trace acceptance of the real queueing.watcher under "
-              "virtual time incl. arrivals exactly on the idle deadline in both tie orders. This kopf has no batching in "
-              "worker() (batch_window is deprecated and ignored), so 'processed' means every single event.")
+LEVEL_TEXT = ("Lean theorems for every label list (no bound) of an LTS of watcher/worker/Scheduler. Unguarded: at most one busy "
+              "worker per key (serial), processed++inflight++backlog is a sub-sequence of arrived in EVERY state incl. shutdown "
+              "(ordered_always), running <= limit, pending queue FIFO / never overtaken, every internal segment decreases "
+              "`measure`, per key: segments of k decrease `kmeasure k`, nothing but an arrival for k increases it "
+              "(key_work_bounded: k's work is bounded whatever other keys do). Under the property's own scope only ('while the "
+              "watch is alive' = scheduler not closed and no worker of the key failed): stream entry <=> exactly one live worker, "
+              "arrived = processed++inflight++backlog (lossless_ordered; drain_lossless extends it through the graceful drain "
+              "up to scheduler.close()), key_progress (a key with work can move by its own enabled segment unless all slots are "
+              "taken or an earlier-enqueued worker is at the head), key_done_complete / key_drained_complete. Liveness is "
+              "'enabled + bounded', i.e. it needs the fairness assumptions listed in ASSUMPTIONS (processors return, timers fire, "
+              "the loop runs enabled segments). The event->key map (bookmark filter + get_uid) is a small separate model "
+              "(keyOf_spec) tied differentially on an exhaustive grid. Tie of the LTS: trace acceptance of the real "
+              "queueing.watcher under virtual time incl. arrivals exactly on the idle deadline in both tie orders. This kopf has "
+              "no batching in worker() (batch_window is deprecated and ignored), so 'processed' means every single event.")
 TIE = "A: every atomic segment of the real watcher/worker/Scheduler logged as a label + state snapshot, replayed by the Lean LTS"
 THEOREMS = [
     ("Kopf.Props.C01", "Kopf.C01.stream_iff_worker"),
     ("Kopf.Props.C01", "Kopf.C01.closed_may_orphan_stream"),
     ("Kopf.Props.C01", "Kopf.C01.lossless_ordered"),
+    ("Kopf.Props.C01", "Kopf.C01.drain_lossless"),
     ("Kopf.Props.C01", "Kopf.C01.ordered_always"),
     ("Kopf.Props.C01", "Kopf.C01.inflight_spec"),
     ("Kopf.Props.C01", "Kopf.C01.serial"),
     ("Kopf.Props.C01", "Kopf.C01.serial_step"),
-    ("Kopf.Props.C01", "Kopf.C01.serial_step_timeout"),
     ("Kopf.Props.C01", "Kopf.C01.limit_respected"),
     ("Kopf.Props.C01", "Kopf.C01.quiescent_complete"),
     ("Kopf.Props.C01", "Kopf.C01.internal_terminates"),
     ("Kopf.Props.C01", "Kopf.C01.internal_run_bounded"),
     ("Kopf.Props.C01", "Kopf.C01.reaches_quiescence"),
-    ("Kopf.Props.C01", "Kopf.C01.eventually_processed"),
     ("Kopf.Props.C01", "Kopf.C01.limit_zero_starves"),
-    ("Kopf.Props.C01", "Kopf.C01.independent_spawn"),
+    ("Kopf.Props.C01", "Kopf.C01.key_progress"),
+    ("Kopf.Props.C01", "Kopf.C01.key_step_decreases"),
+    ("Kopf.Props.C01", "Kopf.C01.key_step_frame"),
+    ("Kopf.Props.C01", "Kopf.C01.key_work_bounded"),
+    ("Kopf.Props.C01", "Kopf.C01.key_done_complete"),
+    ("Kopf.Props.C01", "Kopf.C01.key_drained_complete"),
     ("Kopf.Props.C01", "Kopf.C01.pendingQ_fifo"),
+    ("Kopf.Props.C01", "Kopf.C01.pending_never_overtaken"),
     ("Kopf.Props.C01", "Kopf.C01.frame_other_key"),
+    ("Kopf.Props.C01", "Kopf.C01.keyOf_spec"),
     ("Kopf.Props.C01", "Kopf.C01.buggy_loses"),
 ]
-# not counted (Lemmas/C01_Frame.lean): limit_const, take_reads_own_component, finish_reads_own_component
-RULE = ("scripted watch streams of 1-4 objects (with/without uid), 2-12 events, idle_timeout/worker_limit/exit_timeout/"
+# not counted: quiescent_run_complete (corollary), independent_spawn (unfolds canSpawn), and in Lemmas/C01_Frame.lean
+# limit_const, take_reads_own_component, finish_reads_own_component. `take` and `timeoutTake` are ONE transition of the
+# model (same guard, same effect): the pre-d07cc0b re-wait is recognised by the harness (anomaly `retry`), not by Lean.
+RULE = ("scripted watch streams of 1-6 objects (with/without uid), 2-12 events, idle_timeout/worker_limit/exit_timeout/"
         "consistency scripted, processor durations incl. 0 and idle±1, raising processors, watcher cancellation; arrivals "
         "placed EXACTLY on last_activity+idle_timeout and ±1 tick (adaptive: read off the worker's own wait_for), each "
         "stream run under both orders of same-instant timers (fifo/lifo; rng in thorough). A case is distinct by its "
         "label-name/key sequence; non-trivial when it contains a ttake (timeout with a filled queue: the found event is taken in the same segment), a same-instant "
         "retire+re-insert, an arrival during busy, a limit-blocked pending worker, a kill, a failure or a drained EOS. "
-        "Plus an exhaustive grid of uid-less identities through the real get_uid (216 cases, same object <=> same key).")
+        "exit_timeout incl. 0 and None, a second cancellation during the drain. Plus an exhaustive grid of identities through "
+        "the real get_uid vs the Lean keyOf (not counted in distinct_nontrivial).")
 TRUSTED = ["CPython asyncio (Queue, wait_for, timeouts, Condition, Task cancellation) — exercised, not modelled",
            "harness/props/sim_c01.py hook placement: each label is logged inside the atomic segment it names",
            "the actual order CPython gives to same-instant timers is not predicted: both orders are executed"]
 ASSUMPTIONS = ["the Kubernetes API never reorders events of one object (the scripted stream is the delivered order)",
+               "FAIRNESS (needed by every 'eventually' reading of internal_run_bounded / key_work_bounded / key_progress; the "
+               "model classifies these labels as internal): (1) every processor call returns or raises (`finish`/`fail`); "
+               "(2) timers fire: an idle wait_for times out (`retire`/`timeoutTake`); (3) the event loop eventually runs every "
+               "enabled segment (asyncio's FIFO ready queue)",
+               "ONE shared event loop: a processor that never suspends stalls every object (model segments take zero time); "
+               "not a statement about wall-clock latency",
+               "an IDLE worker keeps its worker_limit slot for idle_timeout: with a limit, another object's event may wait up to "
+               "idle_timeout although nothing is being processed (within 'the configured worker limit' as the scheduler counts "
+               "tasks, not busy processors) — observed on the real code, permitted by the text",
+               "worker_limit is None or >= 1. worker_limit=0 is accepted by kopf, processes nothing (Lean: limit_zero_starves) and "
+               "makes the watcher's shutdown hang in scheduler.close(); corpus/C01/obs-worker-limit-zero.json replays it; not "
+               "generated (observation, not a C01 finding: waiting forever is 'within' a limit of 0)",
+               "the segment boundaries are those of CPython 3.12 (`asyncio.wait_for` built on `timeouts.timeout`, no inner task); "
+               "on 3.10/3.11 wait_for wraps the getter in a task and pops the item there — not exercised by this harness",
+               "identity data is valid Kubernetes data: metadata.uid, when present, is a non-empty string; identity fields do not "
+               "contain '//' and are not literally '-'; creationTimestamp is a string ({'uid': None} makes all such objects share "
+               "the key None; a non-string creationTimestamp raises TypeError in get_uid)",
+               "processors raise Exception subclasses only (a BaseException such as SystemExit escaping a worker task is not generated)",
                "one watcher per object: C01 is per `watcher()` call (its own `streams` dict and Scheduler). kopf starts one "
                "watcher per (resource, namespace) and refuses cluster-wide + namespaced together (running.py raises TypeError); "
                "the same object served under two API versions/resources is two objects for the multiplexer. Overlapping "
@@ -177,7 +210,8 @@ def oracle(scn: dict, log: dict) -> list[tuple[str, dict]]:
     finished_ok = {c["seq"] for c in calls if c["end"] in ("ok", "raised")}
     started = {c["seq"] for c in calls}
     se = log["stream_end"]
-    generous_exit = st.get("exit_timeout", 2048) >= drain_bound(scn)
+    et = st.get("exit_timeout", 2048)
+    generous_exit = et is None or et >= drain_bound(scn)
     if se is not None and not raised and log["cancel_t"] is None:
         if scn.get("tail", 0) >= drain_bound(scn):
             done = set(se["finished"])
@@ -222,6 +256,35 @@ def oracle(scn: dict, log: dict) -> list[tuple[str, dict]]:
                 n += 1
         return n
 
+    # O3b — the strict loss clause, independent of tail / exit_timeout: an event that was NEVER handed to
+    #       the processor must have an excuse. Its turn (arrival, predecessor of the same object ended)
+    #       must not have come before `scheduler.close()` started killing, or all `limit` slots were
+    #       taken by other objects from then on. A failed / killed predecessor ends the object's claim.
+    t_close = next((t for lab, _sn, t in log["labels"] if lab[0] == "close"), log["end_t"])
+    for o, ds in by_obj_deliv.items():
+        cmap = {c["seq"]: c for c in by_obj_calls.get(o, [])}
+        prev_end = None
+        for d in ds:
+            c = cmap.get(d["seq"])
+            if c is not None:
+                if c["end"] != "ok" or c["t1"] is None:
+                    break
+                prev_end = c["t1"]
+                continue
+            expected = d["t"] if prev_end is None else max(d["t"], prev_end)
+            if expected < t_close:
+                if limit is None:
+                    fail("lost", f"object {o}: event {d['seq']} delivered at t={d['t']} was never handed to the processor "
+                                 f"although its turn came at t={expected}, before the scheduler was closed at t={t_close}")
+                else:
+                    pts = [expected] + [t for t in change_points if expected < t < t_close]
+                    free = [t for t in pts if others_at_end_of(t, d["k"]) < limit]
+                    if free:
+                        fail("lost", f"object {o}: event {d['seq']} delivered at t={d['t']} was never handed to the processor "
+                                     f"although its turn came at t={expected} and a worker slot was free at t={free[0]} "
+                                     f"(limit={limit}, scheduler closed at t={t_close})")
+            break
+
     for o, cs in by_obj_calls.items():
         prev_end = None
         dmap = {d["seq"]: d for d in by_obj_deliv.get(o, [])}
@@ -258,7 +321,7 @@ KINDS = ["deadline", "deadline", "deadline", "burst", "limit", "limit", "shutdow
 def gen_scenario(rng: random.Random, force_limit: Any = "any") -> dict:
     kind = rng.choice(KINDS)
     idle = rng.choice([0, 0, -1, 1, 1, 2, 3, 8, 32, 64, 64, 256, 1024])
-    n_obj = rng.choice([1, 1, 2, 2, 3, 4]) if kind not in ("limit",) else rng.choice([2, 3, 4])
+    n_obj = rng.choice([1, 1, 2, 2, 3, 4, 6]) if kind not in ("limit",) else rng.choice([2, 3, 4, 5, 6])
     objects: list[dict] = []
     for i in range(n_obj):
         if rng.random() < 0.25:
@@ -307,7 +370,7 @@ def gen_scenario(rng: random.Random, force_limit: Any = "any") -> dict:
     scn: dict[str, Any] = {
         "kind": kind,
         "settings": {"idle_timeout": idle, "worker_limit": limit,
-                     "exit_timeout": rng.choice([0, 1, 64, 2048, 100000, 100000]),
+                     "exit_timeout": rng.choice([0, 1, 64, 2048, 100000, 100000, None]),
                      "consistency_timeout": cons,
                      "batch_window": rng.choice([None, None, 0, 100, 5000])},
         "indexed": rng.random() < 0.15,
@@ -324,6 +387,8 @@ def gen_scenario(rng: random.Random, force_limit: Any = "any") -> dict:
         else:
             scn["cancel"] = {"mode": "abs", "at": rng.randint(0, max(1, bound // 3))}
         scn["tail"] = rng.choice([0, 5, bound])
+        if rng.random() < 0.3:
+            scn["cancel2"] = rng.choice([0, 1, 2, idle, 64])
     else:
         scn["tail"] = bound if rng.random() < 0.8 else rng.choice([0, 1, idle, idle + 1])
     return scn
@@ -476,6 +541,11 @@ def check_traces(results: list[dict], driver: leanio.Driver) -> list[dict]:
             fails.append({"what": f"the watcher has finished but the model's termination measure is {ans['final'].get('measure')} != 0",
                           "replay": {"scenario": r["scn"], "policy": r["policy"], "final": ans["final"]}})
             continue
+        if ans["final"].get("dropped"):
+            fails.append({"what": f"the model had to drop an event from the watcher's hand (keys {ans['final']['dropped']}): the real "
+                                  f"watcher was cancelled between taking an event and enqueueing it",
+                          "replay": {"scenario": r["scn"], "policy": r["policy"], "final": ans["final"]}})
+            continue
         model_proc = {k: v for k, v in ans["final"]["processed"] if v}
         if model_proc != {k: v for k, v in r["processed"].items() if v}:
             fails.append({"what": "model's processed histories differ from the processor call log",
@@ -536,15 +606,16 @@ def load_corpus() -> list[tuple[str, dict]]:
 
 
 def check_get_uid(ctx: Ctx) -> None:
-    """The event -> key map is outside the Lean model: exhaustive grid through the real `get_uid`.
-    Oracle (from the property: 'events of one object' / 'different objects'): with a uid the key is the uid;
-    without, two events get the same key iff kind/apiVersion/name/namespace/creationTimestamp agree (absent = None)."""
+    """The event -> key map (`keyOf` in the Lean model) against the real `get_uid`: exhaustive grid, both as an
+    oracle (from the property: with a uid the key is the uid; without, two events share a key iff kind/apiVersion/
+    name/namespace/creationTimestamp agree, absent = None = '') and as a differential tie (Lean `C01.key`)."""
     import itertools
     from kopf._core.reactor import queueing
-    vals = {"kind": [None, "A", "B"], "apiVersion": [None, "v1"], "name": ["x", "y"], "namespace": [None, "ns", "x"],
+    vals = {"kind": [None, "A", "B"], "apiVersion": [None, "v1"], "name": ["x", "y"], "namespace": [None, "ns", "x", ""],
             "creationTimestamp": [None, "t1", "t2"]}
     tuples = list(itertools.product(*vals.values()))
-    keys = {}
+    keys: dict = {}
+    reqs, impl, inputs = [], [], []
     for absent_style in (0, 1):       # field missing vs. field present with None
         for t in tuples:
             d = dict(zip(vals, t))
@@ -556,19 +627,62 @@ def check_get_uid(ctx: Ctx) -> None:
                 if d[f] is not None or absent_style:
                     body["metadata"][f] = d[f]
             k = queueing.get_uid({"type": "MODIFIED", "object": body})
-            ctx.case(key=f"get_uid:{t}:{absent_style}", nontrivial=True)
-            if keys.setdefault(k, t) != t:
-                ctx.oracle_fail(f"get_uid maps two different uid-less objects {keys[k]} and {t} to one key {k!r}",
-                                {"get_uid": [list(keys[k]), list(t)]}, {"site": "queueing.get_uid", "check": "key"})
-        for t in tuples:
-            if sum(1 for k, v in keys.items() if v == t) != 1:
-                ctx.oracle_fail(f"get_uid gives one uid-less object {t} several keys", {"get_uid": list(t)},
-                                {"site": "queueing.get_uid", "check": "key"})
-    for uid in ("u", "A//v1//x//-//-", "é"):
+            norm = tuple(v or None for v in t)          # '' and None are the same absent value
+            ctx.case(key=f"get_uid:{t}:{absent_style}", nontrivial=False)
+            if keys.setdefault(k, norm) != norm:
+                ctx.oracle_fail(f"get_uid maps two different uid-less objects {keys[k]} and {norm} to one key {k!r}",
+                                {"get_uid": [list(keys[k]), list(norm)]}, {"site": "queueing.get_uid", "check": "key"})
+            reqs.append(["C01.key", {"bookmark": False, "uid": None, "kind": d["kind"], "apiVersion": d["apiVersion"],
+                                     "name": d["name"], "namespace": d["namespace"],
+                                     "creationTimestamp": d["creationTimestamp"]}])
+            impl.append(k)
+            inputs.append(body)
+    norms = {tuple(v or None for v in t) for t in tuples}
+    for n in norms:
+        if sum(1 for v in keys.values() if v == n) != 1:
+            ctx.oracle_fail(f"get_uid gives one uid-less object {n} several keys", {"get_uid": list(n)},
+                            {"site": "queueing.get_uid", "check": "key"})
+    for uid in ("u", "A//v1//x//-//-", "é", "0"):
         body = {"kind": "A", "apiVersion": "v1", "metadata": {"uid": uid, "name": "x"}}
-        if queueing.get_uid({"object": body}) != uid:
+        k = queueing.get_uid({"object": body})
+        if k != uid:
             ctx.oracle_fail("get_uid ignores metadata.uid", {"uid": uid}, {"site": "queueing.get_uid", "check": "key"})
-    ctx.count("source", "get_uid grid", 2 * len(tuples) + 3)
+        reqs.append(["C01.key", {"bookmark": False, "uid": uid, "kind": "A", "apiVersion": "v1", "name": "x",
+                                 "namespace": None, "creationTimestamp": None}])
+        impl.append(k)
+        inputs.append(body)
+    ctx.count("source", "get_uid grid", len(reqs))
+    try:
+        outs = _ask(ctx.driver, reqs)
+    except leanio.LeanError as e:
+        ctx.tie_fail(f"Lean driver failed on C01.key: {e}", {"log": e.log})
+        return
+    for inp, k, out in zip(inputs, impl, outs):
+        model = out[1] if isinstance(out, list) and len(out) == 2 and out[0] == "ok" else out
+        ctx.compare("get_uid vs keyOf", k, model, inp)
+
+
+def run_limit_zero(ctx: Ctx, name: str, data: dict) -> None:
+    """Replays the Lean witness `limit_zero_starves` on the real watcher (an observation about kopf, see ASSUMPTIONS):
+    with worker_limit=0 nothing is processed and the shutdown never completes. The trace up to the hang must be
+    accepted by the model; any OTHER behaviour (e.g. kopf starts rejecting the setting) is reported as a note."""
+    log = run_one(data["scenario"], "fifo")
+    ctx.count("source", "observation")
+    ctx.case(key=f"limit0:{log['outcome']}", nontrivial=False)
+    names = [l[0][0] for l in log["labels"]]
+    if log["outcome"] == "deadlock" and not log["calls"]:
+        req = trace_request(data["scenario"], log)
+        out = _ask(ctx.driver, [req])[0]
+        ok = isinstance(out, list) and out[0] == "ok" and out[1].get("accepted")
+        ctx.compare("worker_limit=0 trace accepted by the model", True, bool(ok), {"corpus": name, "labels": names, "answer": out})
+        if ok and out[1]["final"]["snapshot"][0] != 1:
+            ctx.tie_fail("worker_limit=0: the model does not end with the worker still pending", {"answer": out})
+        ctx.extra["observation_worker_limit_zero"] = "reproduced: nothing processed, watcher hangs in scheduler.close()"
+    elif log["calls"]:
+        ctx.oracle_fail("worker_limit=0 but a processor was called", {"scenario": data["scenario"], "policy": "fifo"},
+                        {"site": "queueing", "check": "limit"})
+    else:
+        ctx.extra["observation_worker_limit_zero"] = f"no longer reproduces: outcome {log['outcome']} labels {names}"
 
 
 def run(ctx: Ctx) -> None:
@@ -577,6 +691,9 @@ def run(ctx: Ctx) -> None:
     # ---- corpus first -----------------------------------------------------------------------------
     corpus_results = []
     for name, data in load_corpus():
+        if data.get("expect") == "limit-zero-starves":
+            run_limit_zero(ctx, name, data)
+            continue
         for pol in data.get("policies", ["fifo", "lifo"]):
             res = evaluate(data["scenario"], pol)
             res["scn"] = dict(res["scn"], kind="corpus:" + name)
